@@ -71,13 +71,13 @@ func c10CFBit(kind string, slot int) uint16 {
 
 type c10ENI struct {
 	ID, MAC, Type, Status, Instance, Trunk, VSw, Zone, IPv4, IPv6, RG string
-	SG          []string
-	Tags        []ecs.Tag
-	Created     string // exactly as served to the code
-	DeviceIndex int
-	ByCtl       bool // created through CreateNetworkInterface by the code under test
-	CreatedStep int  // harness step in which it was created
-	Slot        int
+	SG                                                                []string
+	Tags                                                              []ecs.Tag
+	Created                                                           string // exactly as served to the code
+	DeviceIndex                                                       int
+	ByCtl                                                             bool // created through CreateNetworkInterface by the code under test
+	CreatedStep                                                       int  // harness step in which it was created
+	Slot                                                              int
 }
 
 type c10Call struct {
@@ -124,7 +124,7 @@ type c10Cloud struct {
 func c10NewCloud(dual bool, createAge time.Duration) *c10Cloud {
 	return &c10Cloud{
 		enis: map[string]*c10ENI{}, dual: dual, createAge: createAge,
-		done0:          map[string]chan struct{}{}, closed0: map[string]bool{},
+		done0: map[string]chan struct{}{}, closed0: map[string]bool{},
 		deleteInjected: map[string]bool{}, deleteInjStep: map[int]bool{}, deleteTried: map[string]bool{},
 	}
 }
@@ -294,12 +294,12 @@ func (c *c10Cloud) CreateNetworkInterface(ctx context.Context, opts ...aliyunCli
 	c.slotSeq[slot]++
 	c.ipSeq++
 	e := &c10ENI{
-		ID:  fmt.Sprintf("eni-%d-%03d", slot, c.slotSeq[slot]),
-		MAC: fmt.Sprintf("00:16:3e:%02x:%02x:%02x", slot, c.slotSeq[slot]/256, c.slotSeq[slot]%256),
+		ID:   fmt.Sprintf("eni-%d-%03d", slot, c.slotSeq[slot]),
+		MAC:  fmt.Sprintf("00:16:3e:%02x:%02x:%02x", slot, c.slotSeq[slot]/256, c.slotSeq[slot]%256),
 		Type: aliyunClient.ENITypeSecondary, Status: aliyunClient.ENIStatusAvailable,
 		VSw: no.VSwitchID, Zone: c10Zone, RG: no.ResourceGroupID,
-		IPv4: fmt.Sprintf("192.168.%d.%d", 1+c.ipSeq/250, 2+c.ipSeq%250),
-		SG:   append([]string(nil), no.SecurityGroupIDs...),
+		IPv4:    fmt.Sprintf("192.168.%d.%d", 1+c.ipSeq/250, 2+c.ipSeq%250),
+		SG:      append([]string(nil), no.SecurityGroupIDs...),
 		Created: time.Now().Add(-c.createAge).UTC().Format(c10Layout),
 		ByCtl:   true, CreatedStep: c.step, Slot: slot,
 	}
